@@ -223,7 +223,41 @@ def hostile_run(ctx, i):
     return problems, len(seen)
 
 
+def corpus_cases():
+    """Hand-written cases that run first (minimised past findings and shapes random generation rarely hits)."""
+    from ..sysinterp import builtin_classes
+    bi = builtin_classes()
+    classes = [dict(id=cid, name=k.__name__, bases=[], mro=[c for c in [cid] + ([101, 100] if cid not in (100, 101) else ([100] if cid == 101 else []))],
+                    qualname="%s.%s" % (k.__module__, k.__name__)) for cid, k in sorted(bi.items())]
+    for c in classes:
+        c["mro"] = [x for x in c["mro"] if x in bi]
+    classes += [dict(id=0, name="C0", bases=[101], mro=[0, 101, 100], qualname="vmod.C0", falsy=False),
+                dict(id=1, name="C1", bases=[101], mro=[1, 101, 100], qualname="vmod.C1", falsy=False)]
+    excs = [dict(id=0, cls=0, str="exc0"), dict(id=8, cls=1, str="cb8"), dict(id=9, cls=0, str="cb9")]
+    always = lambda e: [[4294967295, e]]
+    # two extractors, each permanently failing with an exception the OTHER one is registered for
+    env = dict(classes=classes, excs=excs, keyErrorClass=105,
+               extractors=[dict(cls=0, fields=[["ex0", {"n": 0}]], failAt=always(8)),
+                           dict(cls=1, fields=[["ex1", {"n": 1}]], failAt=always(9))],
+               serFail=[], destFail=[])
+    prog = [dict(op="addDests", ds=[0]),
+            dict(op="try", body=[dict(op="with", task=False, spec=dict(atype="app:a#1", fields=[], sers=None),
+                                      body=[dict(op="log", ms=dict(mtype="app:m1", fields=[], sers=None)), dict(op="raise", e=0)])],
+                 handler=[dict(op="tb")])]
+    return [dict(env=env, prog=prog)]
+
+
 def run(ctx):
+    from ..framework import lean_driver, canon
+    for case in corpus_cases():
+        real, rt = sysinterp.run_case(case)
+        sysinterp.Runtime.ser_calls_failed = lambda self: 0
+        sysinterp.Runtime.ext_calls_failed = lambda self: 0
+        mo = lean_driver("Driver/Sys.lean", [case])[0]
+        ctx.case(case, nontrivial=True, tags=["corpus"], sample=False)
+        if any(canon(real.get(k)) != canon(mo.get(k)) for k in ("outcome", "offered", "accepted")):
+            ctx.broken_tie("correspondence:sys-model", "corpus case: real and model differ", case)
+        oracle(ctx, case, real, rt)
     sysinterp.Runtime.ser_calls_failed = lambda self: sum(1 for k in self.ser_fail if k < self.ser_calls)
     sysinterp.Runtime.ext_calls_failed = lambda self: 0
     n = ctx.budget(450, 15000)
